@@ -229,6 +229,77 @@ theorem default_count_defined_of_reaches {p : Params α} (hp : ValidParams p) (h
     hp.valid.start_nonneg (by rwa [cap_of_le hp.valid.start_le_stop]) hf
   exact ⟨m, by simp [resolveCount, hc, hm]⟩
 
+/-! #### what the correspondence's acceptance mode rests on -/
+
+/-- jitter only scales the values: for an acceptable `jitter` the call as made and the same call
+    with jitter off (any draws) have the same kind of outcome - ValueError, the same number of
+    values, endless - and every value of the former is `emit` applied to the un-jittered delay
+    at its position.  (The driver judges a call with jitter by running it with jitter off and
+    testing every observed value against the delay at its position.) -/
+theorem jitter_only_scales (p : Params α) (hj : JitterOk p) (fuel : Nat) (r r' : Nat → α) :
+    match backoffIter fuel r' { p with jitter := 0 } with
+    | .valueError => backoffIter fuel r p = .valueError
+    | .fuelOut => backoffIter fuel r p = .fuelOut
+    | .finite bs => ∃ n, bs = (List.range n).map (seqAt p.factor p.stop p.start) ∧
+        backoffIter fuel r p = .finite ((List.range n).map (yieldAt r p))
+    | .endless b => b = seqAt p.factor p.stop p.start ∧ backoffIter fuel r p = .endless (yieldAt r p) := by
+  have hjb := jitterBad_false hj
+  have hjb0 : jitterBad { p with jitter := (0 : α) } = false := jitterBad_false (Or.inl rfl)
+  unfold backoffIter
+  rw [rangeBad_jitter, resolveCount_jitter, hjb, hjb0]
+  by_cases hb : rangeBad p = true
+  · simp [hb]
+  · simp only [hb]
+    cases resolveCount fuel p with
+    | bad => simp
+    | fuelOut => simp
+    | rep => simp [emit_off]
+    | num n =>
+      simp only [Bool.false_eq_true, if_false]
+      exact ⟨n, by simp [valsFrom_eq_map, emit_off], by simp [valsFrom_eq_map]⟩
+
+/-- the statement fixes the LAST value of a default-count run, not the number of values: whenever
+    the driver accepts an observed number `m` of values for `count=None` (`acceptCount` changes the
+    parameters), `m` is at least the minimal default count, the call is judged as `count=m`, its
+    values are the (jittered) delays at positions `0 … m-1`, and the un-jittered delay at the last
+    position is `stop` - so every clause of the statement holds for the accepted run.  A smaller
+    `m` is never accepted (`acceptCount` returns `p`: the run is compared with the minimal one). -/
+theorem accepted_default_count {p : Params α} (hp : ValidParams p) (hj : JitterOk p) (hc : p.count = .dflt)
+    (fuel m : Nat) (r : Nat → α) :
+    acceptCount fuel p m = p ∨
+    ∃ n, resolveCount fuel p = .num n ∧ n ≤ m ∧ 1 ≤ m ∧
+      backoffIter fuel r (acceptCount fuel p m) = .finite ((List.range m).map (yieldAt r p)) ∧
+      seqAt p.factor p.stop p.start (m - 1) = p.stop ∧
+      (p.jitter = 0 → ((List.range m).map (yieldAt r p)).getLast? = some p.stop) := by
+  cases hres : resolveCount fuel p with
+  | bad => left; simp [acceptCount, hc, hres]
+  | fuelOut => left; simp [acceptCount, hc, hres]
+  | rep => left; simp [acceptCount, hc, hres]
+  | num n =>
+    by_cases hnm : n ≤ m
+    · right
+      have hd := default_count_last_is_stop hp hc fuel n hres
+      have hm1 : 1 ≤ m := by omega
+      have hstop : seqAt p.factor p.stop p.start (m - 1) = p.stop := by
+        have := seqAt_stays hp.valid hd.2.1 (m - n)
+        rwa [show n - 1 + (m - n) = m - 1 by omega] at this
+      have hacc : acceptCount fuel p m = { p with count := .num (m : Int) } := by
+        simp [acceptCount, hc, hres, hnm]
+      refine ⟨n, rfl, hnm, hm1, ?_, hstop, ?_⟩
+      · rw [hacc]
+        have hp' : ValidParams ({ p with count := .num (m : Int) } : Params α) := ⟨hp.valid, hp.factor_ge⟩
+        have hj' : JitterOk ({ p with count := .num (m : Int) } : Params α) := hj
+        have hk : ¬ ((m : Int) < 0) := by omega
+        simp [backoffIter, rangeBad_false hp', resolveCount, jitterBad_false hj', valsFrom_eq_map, hk]
+      · intro hj0
+        obtain ⟨k, rfl⟩ : ∃ k, m = k + 1 := ⟨m - 1, by omega⟩
+        rw [List.range_succ, List.map_append, List.getLast?_append]
+        simp only [List.map_cons, List.map_nil, List.getLast?_singleton, Option.some_or]
+        simp only [yieldAt, hj0, emit_off]
+        simp only [Nat.add_sub_cancel] at hstop
+        rw [hstop]
+    · left; simp [acceptCount, hc, hres, hnm]
+
 end Order
 section Exact
 
@@ -396,6 +467,85 @@ theorem validation_iff (p : Params Rat) (hc : p.count ≠ .dflt) (fuel : Nat) (r
           | rep => simp only [hres'] at h'; split at h' <;> simp at h'
           | num n => simp only [hres'] at h'; split at h' <;> simp at h'
 
+/-! #### the jitter clause as the correspondence judges it -/
+
+/-- `jitAccept` with no slack IS the statement's clause: the value lies between the un-jittered
+    value `b` and `b * (1 - j)`, inclusive -/
+theorem jitAccept_iff (b j w : Rat) :
+    jitAccept 0 b j w = true ↔ (min b (b * (1 - j)) ≤ w ∧ w ≤ max b (b * (1 - j))) := by
+  unfold jitAccept
+  simp only [Bool.and_eq_true, decide_eq_true_eq]
+  constructor <;> intro h <;> constructor <;> grind
+
+/-- slack only widens the interval (the `F` instance allows `tolF`, the `Q` instance nothing) -/
+theorem jitAccept_tol_mono (tol b j w : Rat) (ht : 0 ≤ tol) (h : jitAccept 0 b j w = true) :
+    jitAccept tol b j w = true := by
+  unfold jitAccept at h ⊢
+  simp only [Bool.and_eq_true, decide_eq_true_eq] at h ⊢
+  constructor <;> grind
+
+/-- every value the model yields is accepted: for valid parameters, `j ∈ [-1, 1]` and draws in
+    `[0, 1)` the value at any position passes the test against the un-jittered delay there -/
+theorem model_values_accepted (p : Params Rat) (h0 : 0 ≤ p.start) (h1 : p.start ≤ p.stop) (hs : 0 < p.stop)
+    (hf : 1 ≤ p.factor) (hj : -1 ≤ p.jitter ∧ p.jitter ≤ 1) (r : Nat → Rat) (hr : ∀ i, 0 ≤ r i ∧ r i < 1)
+    (i : Nat) : jitAccept 0 (seqAt p.factor p.stop p.start i) p.jitter (yieldAt r p i) = true := by
+  rw [jitAccept_iff]
+  have := jitter_bounds p h0 h1 hs hf r hr i
+  by_cases hj0 : 0 ≤ p.jitter
+  · have := this.1 hj0 hj.2; grind
+  · have := this.2 hj.1 (by grind); grind
+
+/-- so is the multiplicative form `b * (1 - j * r)` of the same draw (a rewrite of the loop a
+    maintainer may well make): over the rationals it is the very same number … -/
+theorem emit_mul_form (b j r : Rat) (hj : j ≠ 0) : b * (1 - j * r) = emit j r b := by
+  unfold emit
+  have : ¬ (j == 0) = true := by simpa using hj
+  simp only [this]
+  grind
+
+/-- … and an accepted value comes from SOME draw in `[0, 1]`: for `b ≠ 0`, `j ≠ 0` an accepted
+    `w` is `emit j r b` for `r = (b - w) / (b * j)`, which lies in `[0, 1]` - acceptance admits
+    nothing but points of the model's own range (closed at the far end, as the statement says) -/
+theorem accepted_is_some_draw (b j w : Rat) (hb : 0 < b) (hj : j ≠ 0)
+    (h : jitAccept 0 b j w = true) :
+    ∃ r : Rat, 0 ≤ r ∧ r ≤ 1 ∧ emit j r b = w := by
+  rw [jitAccept_iff] at h
+  have hbj : b * j ≠ 0 := by
+    intro e
+    rcases Rat.mul_eq_zero.mp e with e | e
+    · grind
+    · exact hj e
+  have hq : (b - w) / (b * j) * (b * j) = b - w := Rat.div_mul_cancel hbj
+  generalize (b - w) / (b * j) = q at hq
+  have hem : emit j q b = w := by
+    unfold emit
+    have : ¬ (j == 0) = true := by simpa using hj
+    simp only [this]
+    grind
+  refine ⟨q, ?_, ?_, hem⟩
+  · by_cases hpos : 0 < j
+    · have hd : 0 < b * j := Rat.mul_pos hb hpos
+      apply Rat.not_lt.mp
+      intro hq0
+      have := Rat.mul_lt_mul_of_pos_left hq0 hd
+      grind
+    · have hd : 0 < b * (-j) := Rat.mul_pos hb (by grind)
+      apply Rat.not_lt.mp
+      intro hq0
+      have := Rat.mul_lt_mul_of_pos_left hq0 hd
+      grind
+  · by_cases hpos : 0 < j
+    · have hd : 0 < b * j := Rat.mul_pos hb hpos
+      apply Rat.not_lt.mp
+      intro hq1
+      have := Rat.mul_lt_mul_of_pos_left hq1 hd
+      grind
+    · have hd : 0 < b * (-j) := Rat.mul_pos hb (by grind)
+      apply Rat.not_lt.mp
+      intro hq1
+      have := Rat.mul_lt_mul_of_pos_left hq1 hd
+      grind
+
 end Exact
 
 /-! ### sessions: several calls, the caller changing the lists it was handed, generators advanced
@@ -553,6 +703,21 @@ example : (match backoff 10 (fun _ => 0)
 example : (match backoff 3 (fun _ => 0)
     ({ start := 1, stop := 10, factor := 2, count := .dflt, jitter := 0 } : Params Rat) with
     | .fuelOut => true | _ => false) = true := by decide +kernel
+
+-- acceptance: the delay 8 with jitter 1/2 admits exactly [4, 8]; with jitter -1 exactly [8, 16]
+example : jitAccept 0 8 (1/2) 6 = true ∧ jitAccept 0 8 (1/2) 4 = true ∧ jitAccept 0 8 (1/2) 8 = true ∧
+    jitAccept 0 8 (1/2) 3 = false ∧ jitAccept 0 8 (1/2) 9 = false ∧
+    jitAccept 0 8 (-1) 16 = true ∧ jitAccept 0 8 (-1) 7 = false := by decide +kernel
+-- the two forms of the jittered value (draw 3/4, jitter 1/2, delay 8): 8 - 8*(1/2)*(3/4) = 8*(1 - (1/2)*(3/4)) = 5
+example : emit (1/2 : Rat) (3/4) 8 = 5 ∧ (8 : Rat) * (1 - (1/2) * (3/4)) = 5 := by decide +kernel
+-- default count of backoff(1, 10) is 5; an implementation producing 6 values (one more stop) is judged as
+-- count=6, one producing 3 (last value 4, not stop) is compared with the model's own 5 values
+example : (backoff 10 (fun _ => 0) (acceptCount 10
+      ({ start := 1, stop := 10, factor := 2, count := .dflt, jitter := 0 } : Params Rat) 6)).vals?
+    = some [1, 2, 4, 8, 10, 10] := by decide +kernel
+example : (backoff 10 (fun _ => 0) (acceptCount 10
+      ({ start := 1, stop := 10, factor := 2, count := .dflt, jitter := 0 } : Params Rat) 3)).vals?
+    = some [1, 2, 4, 8, 10] := by decide +kernel
 
 -- a session: the caller uses up the first result of backoff(1, 10); the second call with the very
 -- same arguments is complete again, and a third result is untouched by changes to the second
